@@ -36,6 +36,7 @@ type World struct {
 	termAge map[types.UID]int
 	termMax map[types.UID]int
 	regen   int
+	lagging []*v1.Pod // pod updates of successful binds that become visible in the next step
 	// Log of what the world did in the last step (for replay files)
 	Log []string
 }
@@ -61,6 +62,33 @@ func (w *World) Step() {
 	for _, p := range o.Pods {
 		pods[p.Namespace+"/"+p.Name] = p
 	}
+
+	// 0. pod updates that lagged behind their BindRequest become visible
+	for _, lp := range w.lagging {
+		cur, ok := pods[lp.Namespace+"/"+lp.Name]
+		if !ok || cur.UID != lp.UID {
+			continue
+		}
+		cur = cur.DeepCopy()
+		cur.Spec.NodeName = lp.Spec.NodeName
+		cur.Status.Phase = lp.Status.Phase
+		if cur.Labels == nil {
+			cur.Labels = map[string]string{}
+		}
+		if cur.Annotations == nil {
+			cur.Annotations = map[string]string{}
+		}
+		for k, v := range lp.Labels {
+			cur.Labels[k] = v
+		}
+		for k, v := range lp.Annotations {
+			cur.Annotations[k] = v
+		}
+		w.updatePod(cur)
+		pods[lp.Namespace+"/"+lp.Name] = cur
+		w.logf("lagging pod update of %s/%s applied (node %s)", cur.Namespace, cur.Name, cur.Spec.NodeName)
+	}
+	w.lagging = nil
 
 	// 1. terminating pods disappear
 	for _, p := range o.Pods {
@@ -154,7 +182,12 @@ func (w *World) bind(p *v1.Pod, br *schedulingv1alpha2.BindRequest, node *v1.Nod
 			w.ensureReservation(node, g)
 		}
 	}
-	w.updatePod(p)
+	if w.Opts.PPodUpdateLags > 0 && w.Rng.Float64() < w.Opts.PPodUpdateLags {
+		w.lagging = append(w.lagging, p)
+		w.logf("pod update of %s/%s lags one step behind its BindRequest", p.Namespace, p.Name)
+	} else {
+		w.updatePod(p)
+	}
 	br.Status.Phase = schedulingv1alpha2.BindRequestPhaseSucceeded
 	_ = w.St.Tracker.Update(brGVR, br, br.Namespace)
 	w.logf("bound %s/%s -> %s groups=%v", p.Namespace, p.Name, node.Name, br.Spec.SelectedGPUGroups)
